@@ -72,9 +72,9 @@ func TestMain(m *testing.M) {
 		"custom-kid-key", "tink-kid-key", "ignored-kid-key", "shared-material-keys", "accepted-by-non-first-key", "token-of-foreign-key", "token-of-disabled-key",
 		"header-of-another-keyset-key", "exp-at-max-timestamp", "far-future-leap", "family-HS", "family-ES", "family-RS", "family-PS", "family-ML", "mixed-family-keyset",
 		"accept", "reject", "expired-on-arrival", "aud-list-last-matches", "empty-string-expectation",
-		"rsa-modulus-leading-zero", "rsa-private-integers-leading-zero", "rsa-key-through-proto-parser", "rsa-modulus-bits-not-multiple-of-8", "rsa-key-encoding-refused",
+		"rsa-modulus-leading-zero", "rsa-private-integers-leading-zero", "rsa-key-through-proto-parser", "rsa-modulus-bits-not-multiple-of-8",
 		"jwk-transport-of-unusual-rsa-key", "failed-issue-by-the-judged-primitive", "failed-issue-by-another-primitive", "failed-issue-then-tink-issue-judged",
-		"issue-attempt-of-unconstrained-outcome", "issue-attempt-expected-to-fail-succeeded", "accepted-right-after-a-rejected-verification")
+		"issue-attempt-of-unconstrained-outcome", "accepted-right-after-a-rejected-verification")
 	core.Main(m, prop, "jwtclock", map[string]string{
 		"jwt validator, encoding, raw/verified JWT": "real", "jwt MAC / signer / verifier factories and full primitives": "real",
 		"jwt key types (jwthmac, jwtecdsa, jwtrsassapkcs1, jwtrsassapss, jwtmldsa)": "real", "internal/jwk (JWK set export/import)": "real",
